@@ -152,7 +152,7 @@ def main(argv):
             print(f"VIOLATION property={pid} replay={path}")
             print(f"  key={key} occurrences={total.viol_counts[key]}: {v['what']}"[:600])
         reported += 1
-        rc = max(rc, 1)
+        rc = 1  # a reported violation decides the exit code (1), whatever else (non-determinism notice) was printed
 
     for e in entries:
         if e.get("status") != "open":
